@@ -568,6 +568,7 @@ PROPS["C16"] = {
         leg("rt-isolate_nested", "c16_rt", (1, 2), {"kind": "isolate_nested"}, what="inside scope S, after a nested isolate scope returned, the thread waits for a task of S that runs on the worker while its pool holds a task spawned outside S", weight=2.0),
         leg("rt-isolate_wait", "c16_rt", (1, 2), {"kind": "isolate_nested", "nested": 0}, what="same without the nested scope", weight=2.0),
         leg("rt-isolate_proxy", "c16_rt", (1, 2), {"kind": "isolate_proxy"}, what="two workers: one holds a stolen task of the isolation scope, the other runs a non-isolated parallel_for with static_partitioner (affinity proxies in its pool) while the scope owner waits inside isolate with nothing to do: it must not run a chunk that arrives as a proxy", weight=3.0),
+        leg("rt-observer_slot", "c16_rt", (2, 3), {"kind": "observer_slot"}, what="task_arena(2,2): the main thread stays in slot 0 while two application threads pass through execute(); an observer with a slow on_scheduler_exit counts a thread as inside from its entry callback to the end of its exit callback: the slot index must not be handed to the next thread before that"),
         leg("rt-isolate_critical", "c16_rt", (1, 2), {"kind": "isolate_critical"}, what="an isolated waiter with nothing to do must not run a critical task (priority flow-graph node) that another application thread submitted outside the scope", weight=2.0),
         leg("rt-priority", "c16_rt", (1, 2), {"kind": "priority"}, what="one worker, a low-priority arena whose loop chunks the worker holds in its own pool, and a high-priority arena that receives enqueued work: the worker must be handed over instead of draining its low-priority pool", weight=3.0),
         leg("rt-gc1", "c16_rt", (2, 3), {"kind": "gc", "L": 1}, what="max_allowed_parallelism 1: no worker runs user work"),
